@@ -52,6 +52,9 @@ type wPolicy struct {
 	Files          []*wFile // "targets" first when present
 	Globals        []wGlobal
 	Hooks          []wHook // C20: pre-commit hooks declared in the root of trust
+	// the root envelope carries no signature of its own: its signature block is copied verbatim from
+	// this other state's root envelope (signatures over other content)
+	RootSigsLiftedFrom *wPolicy
 }
 
 type wHook struct {
@@ -127,7 +130,7 @@ func (p *wPolicy) coq() string {
 		}
 	}
 	return fmt.Sprintf("{| ps_root_version := %d%%N; ps_root_keys := %s; ps_root_thr := (%d)%%Z; ps_targets_keys := %s; ps_targets_thr := (%d)%%Z; ps_has_targets_role := %s; ps_root_signers := %s; ps_files := %s; ps_globals := %s |}",
-		p.RootVersion, coqKeys(p.RootKeys), p.RootThr, coqKeys(p.TargetsKeys), p.TargetsThr, coqBool(p.HasTargetsRole), coqKeys(p.RootSigners), coqList(files), coqList(gs))
+		p.RootVersion, coqKeys(p.RootKeys), p.RootThr, coqKeys(p.TargetsKeys), p.TargetsThr, coqBool(p.HasTargetsRole), coqKeys(p.validRootSigners()), coqList(files), coqList(gs))
 }
 
 func (e *wEvent) coq() string {
@@ -225,6 +228,14 @@ func signedEnvelope(v any, signers []int) (*sslibdsse.Envelope, error) {
 	return env, nil
 }
 
+// validRootSigners: the keys whose signature over this root is valid (none when the block was lifted)
+func (p *wPolicy) validRootSigners() []int {
+	if p.RootSigsLiftedFrom != nil {
+		return nil
+	}
+	return p.RootSigners
+}
+
 func (p *wPolicy) rootMetadata() *tufv02.RootMetadata {
 	r := tufv02.NewRootMetadata()
 	r.Version = uint64(p.RootVersion)
@@ -272,6 +283,17 @@ func (p *wPolicy) stateMetadata() (*policy.StateMetadata, error) {
 	md.RootEnvelope, err = signedEnvelope(p.rootMetadata(), p.RootSigners)
 	if err != nil {
 		return nil, err
+	}
+	if p.RootSigsLiftedFrom != nil {
+		md.RootEnvelope, err = signedEnvelope(p.rootMetadata(), nil)
+		if err != nil {
+			return nil, err
+		}
+		other, err := signedEnvelope(p.RootSigsLiftedFrom.rootMetadata(), p.RootSigsLiftedFrom.RootSigners)
+		if err != nil {
+			return nil, err
+		}
+		md.RootEnvelope.Signatures = other.Signatures
 	}
 	for _, f := range p.Files {
 		t := f.metadata()
